@@ -15,6 +15,9 @@ static inline cstring *cstring__lit(const char *p) { g_lit.len = 5; g_lit.id = _
   /* boost::optional relational operators: two empty optionals are equal, an empty one differs from any value */ \
   static inline _Bool opt_##N##__eq(struct opt_##N *a, struct opt_##N *b) { return (!a->has && !b->has) || (a->has && b->has && VAL_EQ_##N(a->val, b->val)); }
 
+#ifndef SEQ_RESERVE_CHECK
+#define SEQ_RESERVE_CHECK(n)      /* readers define it: reserve() argument must not be an unchecked length field */
+#endif
 /* abstract sequence: size, one watched element (index wi, value wv); any other element is arbitrary */
 /* add_* units observe what is stored: the last pushed value and the number of pushes per sequence type */
 #ifdef CAPTURE_PUSH
@@ -38,7 +41,7 @@ static inline cstring *cstring__lit(const char *p) { g_lit.len = 5; g_lit.id = _
   static inline void P##N##__push_back(struct P##N *s, T *v) { if (g_exc) return; \
     __CPROVER_assert(SEQ_INV_##N(v), "stored element satisfies the sequence's element invariant"); PUSH_CAPTURE(P, N, v) if (s->n == s->wi) s->wv = *v; s->n++; } \
   static inline void P##N##__clear(struct P##N *s) { s->n = 0; } \
-  static inline void P##N##__reserve(struct P##N *s, unsigned long n) { } \
+  static inline void P##N##__reserve(struct P##N *s, unsigned long n) { SEQ_RESERVE_CHECK(n) } \
   static inline void P##N##__assign(struct P##N *d, struct P##N *s) { *d = *s; }
 #define DECL_SEQ(N, T) DECL_SEQ_(seq_, N, T) \
   static inline struct seq_##N seq_##N##__empty(void) { struct seq_##N s; s.n = 0; return s; }
